@@ -288,7 +288,8 @@ def scenario(name, nodes, clients, load_ms, faults, snap=0, classes=None, **kw):
 def quick_scenarios(prop):
     if prop == "C07":
         return [scenario("q-leader-kill-3", 3, 8, 5000, ["kill-leader"])]
-    return [scenario("q-snapshot-all-kill-3", 3, 8, 5500, ["kill-all"], snap=20)]
+    return [scenario("q-snapshot-all-kill-3", 3, 8, 5500, ["kill-all"], snap=20),
+            scenario("q-lag-then-all-kill-3", 3, 6, 6500, ["lag-then-all-kill"], snap=20)]
 
 
 def thorough_scenarios(prop, rng):
@@ -314,6 +315,8 @@ def thorough_scenarios(prop, rng):
               scenario("snapshot-small-threshold-3", 3, 6, 9000, ["kill-all", "lag-follower", "kill-all"], snap=5),
               scenario("snapshot-lag-then-all-kill-3", 3, 8, 10000, ["lag-follower", "kill-all", "kill-follower"], snap=20),
               scenario("long-log-3", 3, 16, 15000, ["kill-follower", "kill-all"], snap=50),
+              scenario("lag-then-all-kill-3", 3, 8, 10000, ["lag-then-all-kill", "kill-leader"], snap=20),
+              scenario("lag-then-all-kill-5", 5, 8, 11000, ["lag-then-all-kill", "lag-then-all-kill"], snap=10),
               scenario("leader-then-all-5", 5, 8, 9000, ["kill-leader", "kill-all"], snap=20),
               scenario("repeated-all-kill-3", 3, 4, 12000, ["kill-all", "kill-all", "kill-all", "kill-all"], snap=20)]
     # a few randomly composed ones
